@@ -290,16 +290,73 @@ def gen_val(f, rng, big=False):
     raise AssertionError(k)
 
 
+def shapes(f, rng, cap=16):
+    """a covering set of values for the STRUCTURAL choices of a format: every optional part absent / present,
+    every list empty / one element / two elements, every opaque string empty / one byte / longer, in all
+    combinations up to `cap` per node (sampled beyond).  Guarantees None vs [] vs [x] and b'' vs data for
+    every field, on the encode side and through the round trip."""
+    k = f[0]
+
+    def capped(l):
+        if len(l) > cap:
+            keep = [l[0], l[-1]] + rng.sample(l[1:-1], cap - 2)
+            return keep
+        return l
+    if k in ('U', 'Const', 'Fix'):
+        return [gen_val(f, rng)]
+    if k == 'Rest':
+        lo, hi = f[1], f[2]
+        out = [gen_bytes(rng, lo)]
+        for n in (lo + 1, lo + 5):
+            if hi is None or n <= hi:
+                out.append(gen_bytes(rng, n))
+        return out
+    if k == 'Seq':
+        A, B = shapes(f[1], rng, cap), shapes(f[2], rng, cap)
+        if len(A) * len(B) <= cap:
+            return [(a, b) for a in A for b in B]
+        out = [(a, B[i % len(B)]) for i, a in enumerate(A)] + [(A[i % len(A)], b) for i, b in enumerate(B)]
+        return capped(out)
+    if k == 'Bounded':
+        if id(f) in K.NUM or id(f) in K.OPAQUE:
+            return [gen_val(f, rng)]
+        return shapes(f[2], rng, cap)
+    if k == 'Rep':
+        E = shapes(f[1], rng, cap)
+        out = [[]] + [[e] for e in E]
+        if not (f[1][0] == 'Tag' and len(f[1]) > 4):
+            out.append([E[0], E[-1]])
+            out.append([gen_val(f[1], rng) for _ in range(3)])
+        elif len(E) > 1 and E[0].t != E[-1].t:
+            out.append([E[0], E[-1]])
+        return capped(out)
+    if k == 'Opt':
+        return [None] + [Some(x) for x in shapes(f[1], rng, cap)]
+    if k == 'Tag':
+        ch = f[3]
+        if ch == 'random':
+            ts = [K.HRR_INT, int.from_bytes(gen_bytes(rng, 32), 'big')]
+        elif len(f) > 4:           # an extension inside a message: a few types here, all types in the Extension classes
+            ts = rng.sample(ch, 3)
+        else:
+            ts = sorted(set(ch))
+            if len(ts) > 6:
+                ts = rng.sample(ts, 6)
+        out = []
+        for t in ts:
+            out += [Tagged(t, x) for x in shapes(f[2](t), rng, max(4, cap // len(ts)))]
+        return capped(out)
+    raise AssertionError(k)
+
+
 def all_ext_values(ctx, rng):
     """one value of every extension type known in the context, plus the Opt-None forms"""
     f = K.EXT[ctx]
     out = []
     for t in f[3]:
         inner = f[2](t)
-        out.append(Tagged(t, gen_val(inner, rng)))
+        out += [Tagged(t, x) for x in shapes(inner, rng, 12)]        # None / [] / [x] / b'' / data ... of every field
         out.append(Tagged(t, gen_val(inner, rng, big=True)))
-        if inner[2][0] == 'Opt':
-            out.append(Tagged(t, None))
     return out
 
 
@@ -369,7 +426,11 @@ def overflow_variants(f, v, rng, path=()):
 # =========================================================================================
 # 3. framing perturbations of an encoding
 def perturb(bs, marks, rng, full, light=False):
-    """-> list of (kind, site, bytes).  site = labelled tag (extension type) around the field, or None"""
+    """-> list of (kind, site, bytes).  site = labelled tag (extension type) around the field, or None.
+    Fields are the length fields of the encoding and the tag fields that steer the parse (extension type,
+    layout version, the length words of the SSLv2 hello): each is changed by +1/-1/+2/=0 alone, and together
+    with a byte inserted at / removed from the end of what it governs (all enclosing length fields adjusted),
+    so that "every byte is there but the inner count is wrong" is reached for every count."""
     out = []
     n = len(bs)
     fields = marks.fields
@@ -380,22 +441,24 @@ def perturb(bs, marks, rng, full, light=False):
         ks = range(n) if n <= 1200 else sorted(set(rng.randrange(n) for _ in range(600)))
     else:
         near = set()
-        for (off, w, b0, b1, _) in fields:
+        for (off, w, b0, b1, _, _) in fields:
             near.update(x for x in (off, off + w - 1, off + w, b1 - 1, b1, b1 + 1) if 0 <= x < n)
         near.update(rng.randrange(n) for _ in range(40))
         near.update(range(min(n, 8)))
         ks = sorted(near)
     for k in ks:
         out.append(('truncate', None, bs[:k]))
-    for i, (off, w, b0, b1, site) in enumerate(fields):
+    for i, (off, w, b0, b1, site, fk) in enumerate(fields):
         L = int.from_bytes(bs[off:off + w], 'big')
         top = 256 ** w
+        pre = '' if fk == 'len' else 'tag:'
         for d, nm in ((1, 'len+1'), (-1, 'len-1'), (2, 'len+2')):
             if 0 <= L + d < top:
-                out.append((nm, site, bs[:off] + (L + d).to_bytes(w, 'big') + bs[off + w:]))
+                out.append((pre + nm, site, bs[:off] + (L + d).to_bytes(w, 'big') + bs[off + w:]))
         if L != 0:
-            out.append(('len=0', site, bs[:off] + bytes(w) + bs[off + w:]))
-        enclosing = [j for j, (o2, w2, c0, c1, _) in enumerate(fields) if j != i and c0 <= off and c1 >= b1]
+            out.append((pre + 'len=0', site, bs[:off] + bytes(w) + bs[off + w:]))
+        enclosing = [j for j, (o2, w2, c0, c1, _, k2) in enumerate(fields)
+                     if j != i and k2 == 'len' and c0 <= off and c1 >= b1]
         for junk in (b'\x00', bytes([1 + rng.randrange(255)])):
             b = bytearray(bs[:b1] + junk + bs[b1:])
             ok = True
@@ -407,14 +470,19 @@ def perturb(bs, marks, rng, full, light=False):
                     break
                 b[o2:o2 + w2] = x.to_bytes(w2, 'big')
             if ok:
-                out.append(('junk-inside', site, bytes(b)))
+                out.append((pre + 'junk-inside', site, bytes(b)))
         if b1 > b0:
             b = bytearray(bs[:b1 - 1] + bs[b1:])
+            ok = True
             for j in [i] + enclosing:
                 o2, w2 = fields[j][0], fields[j][1]
                 x = int.from_bytes(b[o2:o2 + w2], 'big') - 1
+                if x < 0:
+                    ok = False
+                    break
                 b[o2:o2 + w2] = x.to_bytes(w2, 'big')
-            out.append(('short-inside', site, bytes(b)))
+            if ok:
+                out.append((pre + 'short-inside', site, bytes(b)))
     out.append(('junk-after', None, bs + b'\x00'))
     out.append(('junk-after', None, bs + gen_bytes(rng, 3)))
     return out
@@ -573,6 +641,8 @@ class Run(object):
         ctx.count('impl-strictness', 1, [(cls.name, kind, m is None, site)])
         prep = dict(rep, perturbation=kind, input=hexs(pb), mirror='reject' if m is None else 'accept',
                     impl=repr(r)[:600])
+        if site is None and cls.name.startswith('Extension(') and len(pb) >= 2:
+            site = (cls.ext_ctx, int.from_bytes(pb[:2], 'big'))     # the extension type the input announces
         sk = site_key(cls, site, kind)
         if m is not None and r[0] != 'crash':
             known = K.known_blobs()
@@ -797,11 +867,13 @@ def run(ctx):
 
     # ---- 2. classes
     per_class = 5 if quick else 30
-    n_coq = 6 if quick else 12
+    n_coq = 4 if quick else 12
     for cls in table:
         vals = []
         if cls.name.startswith('Extension('):
             vals += all_ext_values(cls.ext_ctx, rng)
+        elif not cls.gen:
+            vals += [cls.fix(x) for x in shapes(cls.fmt, rng, 10 if quick else 24)]
         for _ in range(per_class * cls.weight):
             vals.append(cls.gen(rng) if cls.gen else cls.fix(gen_val(cls.fmt, rng, big=rng.random() < 0.3)))
         for i, v in enumerate(vals):
